@@ -340,13 +340,16 @@ func cronsim(t *testing.T, tp *simrt.Tape, opts RunOpts) *Outcome {
 		return simrt.Fault{Kind: simrt.FSlow, Delay: next.Sub(now) + time.Duration(tp.Draw(simrt.SFault, 60))*10*time.Microsecond}
 	}
 	goneAtStart := -1 // DAG whose file vanishes when the next daemon creates its watcher (see cronEvent.Gone)
+	operatorWriting := false // the operator is in the middle of writing or removing a definition (several file operations)
 	var removeNow func(i int)
 	cfg.OnOp = func(op *simrt.OpInfo) {
 		if goneAtStart >= 0 && removeNow != nil && op.Kind == "inotify_init" && strings.HasPrefix(op.Proc.Name, "blackdagger:scheduler") {
 			// the daemon has read the directory once and is about to register its watch: no event will tell it
 			i := goneAtStart
 			goneAtStart = -1
-			removeNow(i)
+			if !operatorWriting { // (not in the middle of an edit of the operator: the model could not say what is on disk)
+				removeNow(i)
+			}
 		}
 		if cw == nil || !strings.HasSuffix(op.Path, ".sock") {
 			return
@@ -381,6 +384,8 @@ func cronsim(t *testing.T, tp *simrt.Tape, opts RunOpts) *Outcome {
 		simrt.Sleep(epoch.Sub(time.Now()))
 		t0 := time.Now()
 		setFile := func(i int, start []string, present bool) {
+			operatorWriting = true
+			defer func() { operatorWriting = false }()
 			d := sc.Dags[i]
 			p := dagsDir + "/" + d.File + ".yaml"
 			if !present {
